@@ -153,6 +153,18 @@ func (l Limits) MaxNumberOfAggregationGroups() int { return int(l) }
 // NewRig builds provider and dispatcher from exported constructors and starts the dispatcher. Inside a synctest
 // bubble call synctest.Wait() afterwards. sched may be nil (no hook installed: free-running workers).
 func NewRig(t testing.TB, confYAML string, sched *Sched, stage notify.Stage, maintenance time.Duration, limit int) *Rig {
+	return NewRigOpts(t, confYAML, sched, stage, maintenance, limit, RigOpts{})
+}
+
+// RigOpts: provider options. PerAlertNameLimit is mem.NewAlerts's per-alertname limit (--alerts.per-alertname-limit);
+// Callback its AlertStoreCallback (PreStore may reject an alert).
+type RigOpts struct {
+	PerAlertNameLimit int
+	Callback          mem.AlertStoreCallback
+}
+
+// NewRigOpts is NewRig with provider options.
+func NewRigOpts(t testing.TB, confYAML string, sched *Sched, stage notify.Stage, maintenance time.Duration, limit int, o RigOpts) *Rig {
 	conf, err := config.Load(confYAML)
 	if err != nil {
 		t.Fatalf("config.Load: %v", err)
@@ -161,7 +173,7 @@ func NewRig(t testing.TB, confYAML string, sched *Sched, stage notify.Stage, mai
 	route := dispatch.NewRoute(conf.Route, nil)
 	reg := prometheus.NewRegistry()
 	mk := marker.NewGroupMarker()
-	alerts, err := mem.NewAlerts(context.Background(), 1000*time.Hour, 0, nil, logger, eventrecorder.NopRecorder(), reg, nil)
+	alerts, err := mem.NewAlerts(context.Background(), 1000*time.Hour, o.PerAlertNameLimit, o.Callback, logger, eventrecorder.NopRecorder(), reg, nil)
 	if err != nil {
 		t.Fatalf("mem.NewAlerts: %v", err)
 	}
